@@ -43,6 +43,9 @@ ModelStdFrom(p, scr, cur, k) ==
 
 ModelStd(p, scr, cur) == ModelStdFrom(p, scr, cur, IF p.b - p.a + 1 <= R1 THEN 1 ELSE 2)
 
+\* the parameters a wrapper reports (param()), with the seeded defect
+RB(k, p) == IF Bug = "convert_to_max_from_a" THEN [a |-> p.a, b |-> Decorate(k, Base(k, p.a))] ELSE ReadBack(k, p)
+
 (* ---- the wrapper under test, with seeded defects for the vacuity guards *)
 Wrapper(k, p, scr, cur) ==
   CASE Bug = "none" -> WrapperDraw(ModelStd, k, p, scr, cur)
@@ -59,6 +62,8 @@ Wrapper(k, p, scr, cur) ==
     [] Bug = "clamp" ->            \* yields b + 1 for the largest raw value
          LET r == WrapperDraw(ModelStd, k, p, scr, cur)
          IN IF ~r.ex /\ scr[r.cursor] = R THEN [r EXCEPT !.val = Decorate(k, Base(k, p.b) + 1)] ELSE r
+    [] Bug = "convert_to_max_from_a" ->   \* the distribution is built from read-back parameters whose maximum is the minimum
+         WrapperDraw(ModelStd, k, RB(k, p), scr, cur)
     [] Bug = "rewind" ->           \* gives a raw value back to the engine
          LET r == WrapperDraw(ModelStd, k, p, scr, cur)
          IN IF ~r.ex /\ cur > 0 THEN [r EXCEPT !.cursor = cur - 1] ELSE r
@@ -129,6 +134,12 @@ LawTransparent ==
   /\ wc = sc /\ wex = sex
   /\ mode = "interval" => [i \in 1..Len(wv) |-> Base(kind, wv[i])] = sv
   /\ mode = "container" => Len(wv) = Len(sv)
+
+\* parameters read back are the parameters given; a distribution built from them draws alike
+LawReadBack ==
+  mode = "interval" =>
+    /\ RB(kind, par) = par
+    /\ ~wex => WrapperDraw(ModelStd, kind, RB(kind, par), script, wc) = WrapperDraw(ModelStd, kind, par, script, wc)
 
 \* the cursor never moves backwards and never passes the end of the script
 LawCursor == wc \in 0..Len(script) /\ sc \in 0..Len(script)
